@@ -139,6 +139,38 @@ theorem allPass_spec (f : Verdict → Bool) (nNum : Nat) (rs : List (List Verdic
   · intro h k _ r hr v hv
     exact h r hr v (List.mem_of_getElem? hv)
 
+theorem rowsPass_short (f : Verdict → Bool) (k : Nat) (rs : List (List Verdict))
+    (h : ∃ r ∈ rs, r.length ≤ k) : rowsPass f k rs = none := by
+  induction rs with
+  | nil => obtain ⟨r, hr, _⟩ := h; cases hr
+  | cons x xs ih =>
+      obtain ⟨r, hr, hk⟩ := h
+      simp only [List.mem_cons] at hr
+      rcases hr with rfl | hr
+      · have : r[k]? = none := List.getElem?_eq_none hk
+        simp [rowsPass, this]
+      · have := ih ⟨r, hr, hk⟩
+        simp only [rowsPass, this]
+        cases x[k]? <;> rfl
+
+theorem allPassFrom_short (f : Verdict → Bool) (rs : List (List Verdict)) (ks : List Nat)
+    (h : ∃ k ∈ ks, rowsPass f k rs = none) : allPassFrom f rs ks = none := by
+  induction ks with
+  | nil => obtain ⟨k, hk, _⟩ := h; cases hk
+  | cons x xs ih =>
+      obtain ⟨k, hk, hn⟩ := h
+      simp only [List.mem_cons] at hk
+      rcases hk with rfl | hk
+      · simp [allPassFrom, hn]
+      · have := ih ⟨k, hk, hn⟩
+        simp only [allPassFrom, this]
+        cases rowsPass f x rs <;> rfl
+
+theorem allPass_short (f : Verdict → Bool) (nNum : Nat) (rs : List (List Verdict))
+    (h : ∃ r ∈ rs, r.length < nNum) : allPass f nNum rs = none := by
+  obtain ⟨r, hr, hlt⟩ := h
+  exact allPassFrom_short f rs _ ⟨r.length, List.mem_range.mpr hlt, rowsPass_short f _ rs ⟨r, hr, Nat.le_refl _⟩⟩
+
 /-! ## depolarising noise over a commutative ring -/
 section depol
 variable {K : Type} [CommRing K]
